@@ -242,7 +242,10 @@ func runC13(t *simrt.Tape, o Opts) Outcome {
 			d := fakes.NewDDB(s, table)
 			d.Lag = true
 			d.Faults = faulty
-			opts = fmt.Sprintf("table=%s suffix=%v", table, suffix)
+			// injected failures surface as typed service errors or as plain Go errors (a client-side
+			// timeout): either way the operation failed and must be reported as failed
+			fakes.PlainErrors = faulty && t.Choose(2, "ddb.plain-errors") == 1
+			opts = fmt.Sprintf("table=%s suffix=%v plain-errors=%v", table, suffix, fakes.PlainErrors)
 			lastFault = func() string { return d.FaultOf[s.Cur().ID] }
 			clearFault = func() { delete(d.FaultOf, s.Cur().ID) }
 			defer func() {
